@@ -4,7 +4,7 @@ import random
 from harness import common as C
 
 RULE_FILES = ["Rules/RealPrelude.v", "Rules/ScalarRules.v", "Rules/Complex.v", "Containers/VSpace.v",
-              "Containers/VSpaceProof.v", "Array/Broadcast.v", "Array/Run01.v", "Array/MatMul.v", "Array/Index.v", "Array/Select.v", "Array/RunSel.v", "Rules/Stats.v", "Rules/StatsProof.v", "Array/RunStats.v"]
+              "Containers/VSpaceProof.v", "Array/Broadcast.v", "Array/Run01.v", "Array/MatMul.v", "Array/Index.v", "Array/Select.v", "Array/RunSel.v", "Rules/Stats.v", "Rules/StatsProof.v", "Array/RunStats.v", "Array/Bilinear.v", "Array/RunBil.v"]
 IMPORTS = ("From Coq Require Import List ZArith.\nImport ListNotations.\n"
            "From AG Require Import VSpace VSpaceProof Broadcast Run01 MatMul.\nLocal Open Scope Z_scope.\n")
 
@@ -122,6 +122,34 @@ def run_select(res, tag, seed):
     return bad, tie, None
 
 
+def term_bil(c):
+    zl = lambda l: C.clist([C.cz(x) for x in l])  # noqa: E731
+    S = C.clist(["(mk %s %s %s %s)" % (C.cnat(a), C.cnat(b), C.cnat(o), C.cz(k)) for a, b, o, k in c["S"]])
+    oj = lambda j: "None" if j is None else "(Some %s)" % zl(j)  # noqa: E731
+    return ("{| l_na := %s; l_nb := %s; l_no := %s; l_S := %s; l_A := %s; l_B := %s; l_g := %s; l_dA := %s; l_dB := %s; l_val := %s; "
+            "l_vjpA := %s; l_vjpB := %s; l_jvpA := %s; l_jvpB := %s; l_ok := %s |}"
+            % (C.cnat(c["na"]), C.cnat(c["nb"]), C.cnat(c["no"]), S, zl(c["A"]), zl(c["B"]), zl(c["g"]), zl(c["dA"]), zl(c["dB"]),
+               zl(c["val"]), zl(c["vjpA"]), zl(c["vjpB"]), oj(c["jvpA"]), oj(c["jvpB"]), C.cbool(c["ok"])))
+
+
+def run_bilinear(res, tag, seed):
+    """bilinear primitives: structure constants read off NumPy; the model's contraction and rules against autograd"""
+    out, err = C.run_impl("impl_bilinear.py", {"seed": seed})
+    if out is None:
+        return [], [], err
+    cases = out["cases"]
+    for k, v in out["dist"].items():
+        res.count(k, v)
+    imports = ("From Coq Require Import List ZArith.\nImport ListNotations.\n"
+               "From AG Require Import Bilinear RunBil.\nLocal Open Scope Z_scope.\n")
+    codes = C.coq_eval(tag + "_bil", imports, "", [term_bil(c) for c in cases], "checkbil")
+    res.add_cases(len(cases), [("bil", c["prim"], c["tag"]) for c in cases], [{"primitive": c["prim"], "configuration": c["tag"]} for c in cases[:1]])
+    bad = [dict(c, site={"primitive": c["prim"]}, primitive=c["prim"], configuration=c["tag"],
+                what="bilinear primitive: shapes wrong") for c, k in zip(cases, codes) if k == 2]
+    tie = [c for c, k in zip(cases, codes) if k == 1]
+    return bad, tie, None
+
+
 def term_stat(c):
     ql = lambda l: C.clist(["(%d # %d)" % (a, b) for a, b in l])  # noqa: E731
     jv = "None" if c["jvp"] is None else "(Some %s)" % ql(c["jvp"])
@@ -180,7 +208,10 @@ def run_bcast(res, tag, seed, n):
     tbad, ttie, terr = run_stats(res, tag, seed, 3 * n)
     if terr:
         return bad, tie, terr
-    return bad + qbad + tbad, tie + qtie + ttie, None
+    lbad, ltie, lerr = run_bilinear(res, tag, seed)
+    if lerr:
+        return bad, tie, lerr
+    return bad + qbad + tbad + lbad, tie + qtie + ttie + ltie, None
 
 
 def run_oracle(res, props, tier, seed, only=None):
@@ -206,6 +237,9 @@ def run(res, tier, seed, broken, props, with_bcast):
         bad, tie = bad + b, tie + t
         if not err:
             b, t, err = run_stats(res, "st_" + props[0].lower(), seed, 150 if tier == "thorough" else 60)
+            bad, tie = bad + b, tie + t
+        if not err:
+            b, t, err = run_bilinear(res, "bl_" + props[0].lower(), seed)
             bad, tie = bad + b, tie + t
         if err:
             broken = broken + [{"obligation": "selection-primitive correspondence failed to run", "log": err[-3000:]}]
